@@ -1087,7 +1087,11 @@ fn repeated_headers(txt: &str, rng: &mut Rng) -> String {
 }
 const FAULT_WORDS: &[&str] = &["MACRO", "END", "PIN", "LAYER", ";", "1.5", "-", "\"unterminated", "RECT", "LIBRARY", "PROPERTY", "BEGINEXT", "VERSION", "9.9", "UNITS", "é", "VIA", "ITERATE", "DO", "+", ".", "#", "\"", "OBS", "PORT", "DENSITY", "VIARULE", "PROPERTYDEFINITIONS", "RANGE", "MASK",
     // numbers at and beyond the limits of the decimal type (96-bit mantissa, 28 fraction digits)
-    "79228162514264337593543950335", "9999999999999999999999999999", "-79228162514264337593543950335", "0.0000000000000000000000000001", "7922816251426433759354395033.5", "99999999999999999999999999999999"];
+    "79228162514264337593543950335", "9999999999999999999999999999", "-79228162514264337593543950335", "0.0000000000000000000000000001", "7922816251426433759354395033.5", "99999999999999999999999999999999",
+    // words around every length a keyword table might be cut at, in characters AND in bytes: 16 … 40 letters of one, two, three and four bytes each
+    "ANTENNAPARTIALMETALSIDEAREA", "antennapartialmetalsidearea", "ANTENNAPARTIALMETALSIDEAREAS", "ANTENNAPARTIALMETALSIDEARE", "ABCDEFGHIJKLMNOPQRSTUVWXYZABCDEF", "ABCDEFGHIJKLMNOPQRSTUVWXYZABCDEFG", "ABCDEFGHIJKLMNOPQRSTUVWXYZABCDE",
+    "абвгдежзийклмнопр", "абвгдежзийклмнопрстуфхцчшщъыьэюя", "абвгдежзийклмнопрстуфхцчшщъыьэю", "абвгдежзийклмнопрстуфхцчшщъыьэюяа", "ééééééééééééééééé", "ABCDEFGHIJKLMNOPQRSTUVWXYZABCDEé",
+    "中文中文中文中文中文中", "中文中文中文中文中文中文中文中文中文中文中文中文中文中文中文中文", "😀😀😀😀😀😀😀😀😀", "😀😀😀😀😀😀😀😀", "𝄞𝄞𝄞𝄞𝄞𝄞𝄞𝄞𝄞𝄞𝄞𝄞𝄞𝄞𝄞𝄞", "ßßßßßßßßßßßßßßßßßßßßßßßßßßßßßßßß", "İİİİİİİİİİİİİİİİİİİİİİİİİİİ"];
 pub fn gen_c11(thorough: bool, rng: &mut Rng, out: &mut Vec<String>) {
     let nbase = if thorough { 400 } else { 60 };
     let per = if thorough { 60 } else { 40 };
